@@ -1,5 +1,6 @@
 """C10 — validate accepts exactly conforming data and agrees with what the writers accept
 (DESIGN §5 C10)."""
+import copy
 import io
 import json
 import struct
@@ -219,6 +220,93 @@ def run(tier, seed):
             elif raised is None or exc_class(raised) != "validation":
                 run.fail({"schema": s, "value": to_wire(v), "raised": repr(raised), "tags": ["validating-writer"]},
                          "validating writer did not raise ValidationError for a record validate rejects", kind="oracle")
+    # ---- the validating writer when APPENDING: the file's own schema (its named types included) is the one the
+    # gate validates against, whatever schema argument is handed over (None, another version of the types)
+    import random as _random2
+    for i in range(scale(tier, 30)):
+        rr = _random2.Random(seed * 733 + i)
+        item_t = rr.choice(["int", "long"])
+        file_schema = {"type": "record", "name": "Order", "fields": [
+            {"name": "first", "type": {"type": "record", "name": "Item", "fields": [{"name": "qty", "type": item_t}]}},
+            {"name": "second", "type": "Item"},
+            {"name": "more", "type": {"type": "array", "items": "Item"}}]}
+        other = copy.deepcopy(file_schema)
+        other["fields"][0]["type"]["fields"][0]["type"] = rr.choice(["string", "long", "int", "boolean"])
+        arg = rr.choice([None, other, file_schema])
+        good = {"first": {"qty": 1}, "second": {"qty": 2}, "more": [{"qty": 3}]}
+        too_big = 2 ** 40 if item_t == "int" else 2 ** 70
+        bad = rr.choice([{"first": {"qty": 1}, "second": {"qty": too_big}, "more": []},
+                         {"first": {"qty": 1}, "second": {"qty": 2}, "more": [{"qty": "x"}]}])
+        fo = io.BytesIO()
+        fastavro.writer(fo, copy.deepcopy(file_schema), [good], sync_marker=b"\x07" * 16)
+        try:
+            w = Writer(fo, copy.deepcopy(arg) if arg is not None else None, validator=True, sync_interval=1)
+        except Exception as e:  # noqa
+            run.fail({"file_schema": file_schema, "argument": arg, "tags": ["validating-writer", "append"]},
+                     "opening a validating writer for append raised %r" % (e,), kind="oracle")
+            continue
+        run.cov["evaluations"] += 1
+        run.tag("validating-writer:append")
+        size0 = len(fo.getvalue())
+        why = None
+        try:
+            w.write(copy.deepcopy(good))
+            w.flush()
+        except Exception as e:  # noqa
+            why = "validating writer (append) refused a record that conforms to the file's schema: %r" % (e,)
+        if why is None:
+            size1 = len(fo.getvalue())
+            try:
+                w.write(copy.deepcopy(bad))
+                w.flush()
+                why = "validating writer (append) accepted a record that does not conform to the file's schema"
+            except Exception as e:  # noqa
+                w.flush()
+                if exc_class(e) != "validation":
+                    why = "validating writer (append) raised %s, not ValidationError" % exc_class(e)
+                elif len(fo.getvalue()) != size1:
+                    why = "validating writer (append) emitted bytes for a rejected record"
+        if why is None:
+            try:
+                back = list(fastavro.reader(io.BytesIO(fo.getvalue())))
+                if back != [good, good]:
+                    why = "file after a validating append does not read back"
+            except Exception as e:  # noqa
+                why = "file after a validating append is unreadable: %r" % (e,)
+        if why:
+            run.fail({"file_schema": file_schema, "argument": arg, "bad": to_wire(bad), "tags": ["validating-writer", "append"]}, why, kind="oracle")
+    # ---- one unparsed schema OBJECT validated against, edited in place, validated against again
+    for i in range(scale(tier, 30)):
+        rr = _random2.Random(seed * 877 + i)
+        obj = {"type": "record", "name": "Meas", "fields": [{"name": "value", "type": "long"}, {"name": "tag", "type": "string"}]}
+        data = [{"value": 2 ** 40, "tag": "t"}, {"value": 5, "tag": "t"}, {"value": 5, "tag": 7}, {"value": 5, "tag": "t", "extra": 1},
+                {"value": 5}, {"value": True, "tag": "t"}]
+        for step in range(3):
+            fresh = copy.deepcopy(obj)
+            for d in data:
+                try:
+                    got = validate(d, obj, raise_errors=False)
+                except Exception as e:  # noqa
+                    got = "raises " + exc_class(e)
+                try:
+                    exp = validate(d, copy.deepcopy(fresh), raise_errors=False)
+                except Exception as e:  # noqa
+                    exp = "raises " + exc_class(e)
+                try:
+                    gotm = validate_many([d, d], obj, raise_errors=False)
+                except Exception as e:  # noqa
+                    gotm = "raises " + exc_class(e)
+                run.cov["evaluations"] += 1
+                if got != exp or (gotm is not exp and gotm != exp):
+                    run.fail({"schema_now": copy.deepcopy(obj), "value": to_wire(d), "same_object": got, "validate_many": gotm, "fresh_copy": exp,
+                              "step": step, "tags": ["same-object-edited"]},
+                             "validate against a schema object edited in place differs from validate against a fresh copy of it", kind="oracle")
+                    break
+            run.tag("same-object-edited")
+            f = rr.choice(obj["fields"])
+            f["type"] = rr.choice([t for t in ("int", "long", "string", "boolean", ["null", "string"]) if t != f["type"]])
+            if rr.random() < 0.4:
+                obj["fields"].append({"name": "n%d" % step, "type": "int", "default": 0})
     # ---- directed probes outside the generator's reach
     import io as _io
     import datetime as _dt
